@@ -1860,16 +1860,15 @@ void cif_value_free(union cif_value_u *value) {
 
 int cif_value_clone(cif_value_tp *value, cif_value_tp **clone) {
     FAILURE_HANDLING;
-    cif_value_tp *temp;
-    cif_value_tp *to_free = NULL;
+    /*
+     * The copy is built in a local object first.  The value to overwrite is cleaned only afterwards, because the value to
+     * copy may be part of it (a list element replaced by one of its own members), and so that a failure leaves it intact.
+     */
+    cif_value_tp fresh;
+    cif_value_tp *temp = &fresh;
+    cif_value_tp *target;
 
-    if (*clone != NULL) {
-        cif_value_clean(*clone);
-        temp = *clone;
-    } else {
-        if (cif_value_create(CIF_UNK_KIND, &temp) != CIF_OK) DEFAULT_FAIL(soft);
-        to_free = temp;
-    }
+    fresh.kind = CIF_UNK_KIND;
 
     switch (value->kind) {
         case CIF_CHAR_KIND:
@@ -1895,11 +1894,20 @@ int cif_value_clone(cif_value_tp *value, cif_value_tp **clone) {
             FAIL(soft, CIF_ARGUMENT_ERROR);
     }
 
-    *clone = temp;
+    if (*clone != NULL) {
+        target = *clone;
+        cif_value_clean(target);
+    } else if (cif_value_create(CIF_UNK_KIND, &target) != CIF_OK) {
+        cif_value_clean(&fresh);
+        DEFAULT_FAIL(soft);
+    }
+
+    /* the new object takes over the components of the local one */
+    memcpy(target, &fresh, sizeof(cif_value_tp));
+    *clone = target;
     return CIF_OK;
 
     FAILURE_HANDLER(soft):
-    free(to_free);
 
     FAILURE_TERMINUS;
 }
